@@ -67,8 +67,8 @@ type Case struct {
 	// an override of that stage only, everybody else sees the inherited value
 	ParentEnv map[string]string `json:"parent_env,omitempty"`
 	// Ctx (cli, real): the shared task runs in a named execution context with before and after commands
-	Ctx bool `json:"ctx,omitempty"`
-	Mode     string            `json:"mode,omitempty"` // "real": shared task object + real runner
+	Ctx  bool   `json:"ctx,omitempty"`
+	Mode string `json:"mode,omitempty"` // "real": shared task object + real runner
 }
 
 func (c Case) canon() string { b, _ := json.Marshal(c); return string(b) }
